@@ -96,6 +96,7 @@ class Ctx:
         self.W, self.D = params["W"], params["D"]
         self.tmp = tempfile.mkdtemp(prefix="cms-", dir=tlc.scratch_root())
         self.rt_seen = set()
+        self.c19_seen = set()
 
     def close(self):
         shutil.rmtree(self.tmp, ignore_errors=True)
@@ -174,7 +175,10 @@ class Ctx:
             return d
 
         if t.focus == "C19":
-            self._c19(t, objs, hf, rp)
+            k19 = hash(repr((table, hist)))
+            if k19 not in self.c19_seen:
+                self.c19_seen.add(k19)
+                self._c19(t, objs, hf, rp)
         bytes_self = bytes(s)
         try:
             ret = self.apply(objs, o)
@@ -418,7 +422,7 @@ def run(focus, tier, seed):
     for p in profiles(tier, seed, focus in ("C05", "C14", "C19")):
         if focus in FOCUS_FILTER and not FOCUS_FILTER[focus](p):
             continue
-        if p.get("exhaustive"):
+        if p.get("exhaustive") or (tier == "quick" and focus in ("C05", "C14", "C19")):
             continue
         ps = dict(p, maxdepth=14, maxtrue=p["maxtrue"] + 4, maxreloads=2)
         const = {k: v for k, v in ps.items() if k != "tables"}
